@@ -161,7 +161,14 @@ namespace TAO_PEGTL_NAMESPACE
             std::terminate();
 #endif
          }
-         m_end += m_reader( m_end, ( std::min )( buffer_free_after_end(), ( std::max )( amount - buffer_occupied(), Chunk ) ) );
+         // A reader may deliver less than requested; only a result of zero means that the end was reached.
+         do {
+            const std::size_t r = m_reader( m_end, ( std::min )( buffer_free_after_end(), ( std::max )( amount - buffer_occupied(), Chunk ) ) );
+            if( r == 0 ) {
+               break;
+            }
+            m_end += r;
+         } while( m_current.data + amount > m_end );
       }
 
       template< rewind_mode M >
